@@ -436,6 +436,12 @@ def make_cases(run, scratch):
                     cfg = ["filter 16 %d" % fb, "filter 17 %d" % fp, "filter 18 %d" % fo, "filter 19 %d" % rng.choice((0, 1))]
                     cases.append(("linux:%s|%s" % (os.path.basename(tb), ";".join(cfg)),
                                   ["env HWLOC_COMPONENTS linux,stop", "env HWLOC_THISSYSTEM 0", "env HWLOC_CPUID_PATH"] + cfg + ["src fsroot " + d], "linux-io-filters"))
+                    # the same with Groups (and sometimes Packages) filtered out: a PCI locality that matches no object then has
+                    # no Group to live in (seeded change C18i: the I/O-locality Group inserted although Groups are KEEP_NONE)
+                    if fp != 1:
+                        cfg2 = cfg + ["filter 13 %d" % rng.choice((1, 1, 0))] + (["filter 1 1"] if rng.random() < 0.3 else [])
+                        cases.append(("linux:%s|%s" % (os.path.basename(tb), ";".join(cfg2)),
+                                      ["env HWLOC_COMPONENTS linux,stop", "env HWLOC_THISSYSTEM 0", "env HWLOC_CPUID_PATH"] + cfg2 + ["src fsroot " + d], "linux-io-filters"))
     if quick:
         x86 = rng.sample(x86, min(6, len(x86)))
     for tb in lin:
